@@ -93,6 +93,25 @@ Proof.
   destruct s as [|c s]; [congruence|]. exact Hv.
 Qed.
 
+(* the fuel bounds the length, so the interpreter's digit limit (4300) is never reached *)
+Lemma digits_fuel_length f : forall n acc, length (digits_fuel f n acc) <= f + length acc.
+Proof.
+  induction f as [|f IH]; intros n acc; cbn [digits_fuel]; [cbn; lia|]. cbv zeta.
+  destruct (n <? 10)%N.
+  - cbn [length]. lia.
+  - pose proof (IH (n / 10)%N ((48 + n mod 10)%N :: acc)) as H. cbn [length] in H. lia.
+Qed.
+
+Lemma digits_length n : length (digits n) <= 40.
+Proof. unfold digits. pose proof (digits_fuel_length 40 n []) as H. cbn [length] in H. lia. Qed.
+
+Lemma py_int_digits n : py_int DASCII (digits n) = int_of DASCII (digits n).
+Proof.
+  unfold py_int. cbn [d_maxdigits DASCII]. pose proof (digits_length n) as H.
+  assert (E : (4300 <? N.of_nat (length (digits n)))%N = false) by (apply N.ltb_ge; lia).
+  rewrite E. reflexivity.
+Qed.
+
 Lemma digits_isdigit n : str_isdigit DASCII (digits n) = true.
 Proof.
   pose proof (digits_nonempty n) as Hne. pose proof (digits_isdig n) as Hd.
@@ -202,10 +221,8 @@ Qed.
 
 Lemma render_event_wf cases o e : cit_wf DASCII (render_event cases o e).
 Proof.
-  split.
-  - destruct e; cbn [render_event c_cls base_cit];
-      intros [H|H]; try discriminate H; (split; [eexists; reflexivity|right; eexists; reflexivity]).
-  - intros p _. apply str_isdigit_int.
+  unfold cit_wf. destruct e; cbn [render_event c_cls base_cit];
+    intros [H|H]; try discriminate H; (split; [eexists; reflexivity|right; eexists; reflexivity]).
 Qed.
 
 Lemma render_wf cases evs : Forall (cit_wf DASCII) (render cases evs).
@@ -579,8 +596,8 @@ Proof.
   rewrite gget_page. cbn [andb].
   destruct pin as [p|]; [|reflexivity].
   assert (Ht : truthy_s (Some (AT ++ digits p)) = true) by reflexivity. rewrite Ht. cbn [negb].
-  rewrite digits_isdigit. cbn [negb]. rewrite (digits_int _ Hpg), pin_number_at.
-  rewrite (digits_int p (Hpin p eq_refl)). unfold pin_ok.
+  rewrite digits_isdigit. cbn [negb]. rewrite pin_number_at, !py_int_digits.
+  rewrite (digits_int _ Hpg), (digits_int p (Hpin p eq_refl)). unfold pin_ok.
   rewrite negb_andb, !N.leb_antisym, !negb_involutive. reflexivity.
 Qed.
 
